@@ -1484,6 +1484,12 @@ class CanUnprotect(BaseSecurityContext):
         if pivsz:
             if len(tail) < pivsz:
                 raise DecodeError("Partial IV announced but not present")
+            if pivsz > 1 and tail[0] == 0:
+                # RFC 8613 Section 5: leading zero bytes are removed from the
+                # Partial IV. As a response's own Partial IV enters the nonce
+                # only through its numeric value, a padded one would otherwise
+                # verify like the original.
+                raise DecodeError("Partial IV is not in its shortest form")
             unprotected[COSE_PIV] = tail[:pivsz]
             tail = tail[pivsz:]
 
